@@ -93,6 +93,7 @@ type Group struct {
 	Perturb  bool   `json:"perturb"`
 	FailAt   int    `json:"fail_at,omitempty"` // callback index that fails (-1 none)
 	ViaCLI   bool   `json:"via_cli,omitempty"` // loads go through cli.ProjectOptions.LoadProject
+	ShareFiles bool `json:"share_config_files,omitempty"` // goroutines loading the same layout pass the same ConfigFiles slice
 }
 
 type GroupRec struct {
@@ -159,15 +160,28 @@ func spin(p *prng) {
 }
 
 // loadOnce performs one load with its OWN ConfigDetails, environment map and options.
-func loadOnce(L *Layout, p *prng, perturb bool) outcome { return loadVia(L, p, perturb, false) }
+func loadOnce(L *Layout, p *prng, perturb bool) outcome { return loadVia(L, p, perturb, false, nil) }
 
-func loadVia(L *Layout, p *prng, perturb, viaCLI bool) outcome {
+// configFiles builds the list of files to load (file names only: the loader reads them).
+func configFiles(L *Layout) []types.ConfigFile {
+	var out []types.ConfigFile
+	for _, f := range L.Main {
+		out = append(out, types.ConfigFile{Filename: filepath.Join(L.root, f)})
+	}
+	return out
+}
+
+// loadVia performs one load. Every call has its own Environment map and options; `shared`, when not nil, is a
+// ConfigFiles slice handed to several concurrent calls (an input the loader has no business writing to).
+func loadVia(L *Layout, p *prng, perturb, viaCLI bool, shared []types.ConfigFile) outcome {
 	cd := types.ConfigDetails{WorkingDir: filepath.Join(L.root, L.WorkingDir), Environment: types.Mapping{}}
 	for k, v := range L.Env {
 		cd.Environment[k] = v
 	}
-	for _, f := range L.Main {
-		cd.ConfigFiles = append(cd.ConfigFiles, types.ConfigFile{Filename: filepath.Join(L.root, f)})
+	if shared != nil {
+		cd.ConfigFiles = shared
+	} else {
+		cd.ConfigFiles = configFiles(L)
 	}
 	o := L.Opts
 	loadOpt := func(lo *loader.Options) {
@@ -319,6 +333,14 @@ func TestRace(t *testing.T) {
 			var ready atomic.Int32
 			gate := make(chan struct{})
 			outs := make([]outcome, len(g.Layouts))
+			sharedFiles := map[string][]types.ConfigFile{}
+			if g.ShareFiles && !g.ViaCLI {
+				for _, n := range g.Layouts {
+					if sharedFiles[n] == nil {
+						sharedFiles[n] = configFiles(layouts[n])
+					}
+				}
+			}
 			for i := range g.Layouts {
 				wg.Add(1)
 				i := i
@@ -331,7 +353,7 @@ func TestRace(t *testing.T) {
 					if g.Perturb {
 						spin(p) // start stagger
 					}
-					outs[i] = loadVia(L, p, g.Perturb, g.ViaCLI)
+					outs[i] = loadVia(L, p, g.Perturb, g.ViaCLI, sharedFiles[L.name])
 				}()
 			}
 			for int(ready.Load()) < len(g.Layouts) {
@@ -431,7 +453,7 @@ func TestRace(t *testing.T) {
 				}
 				s, ok := solo[skey]
 				if !ok {
-					s = loadVia(layouts[name], &prng{x: seed}, false, pc.g.ViaCLI)
+					s = loadVia(layouts[name], &prng{x: seed}, false, pc.g.ViaCLI, nil)
 					solo[skey] = s
 					if s.ok {
 						res.Counters["solo-ok"]++
@@ -497,6 +519,7 @@ func TestRace(t *testing.T) {
 			case k < 7:
 				g.Kind = "loads"
 				g.ViaCLI = master.n(4) == 0
+				g.ShareFiles = master.n(3) == 0
 				g.Threads = 2 + master.n(15)
 				same := master.n(3) == 0
 				first := names[master.n(len(names))]
